@@ -75,7 +75,10 @@ RForm(D, X, Y, Z) ==
         uy == Direction(D, Z, Y)
     IN [sxy |-> Dot(ux, uy), sxx |-> Dot(ux, ux), syy |-> Dot(uy, uy), n |-> N(D)]
 \* p-value kind: |r| = 1 -> 0 exactly; otherwise PearsonP(r, n) uninterpreted
-RKind(F) == IF F.sxy * F.sxy = F.sxx * F.syy THEN "zero" ELSE "t"
+\* (|r| = 1 iff the two residual directions are parallel, i.e. the primitive vectors are equal or opposite)
+RKind(D, X, Y, Z) == LET ux == Direction(D, Z, X)
+                         uy == Direction(D, Z, Y)
+                     IN IF ux = uy \/ ux = [i \in 1..Len(uy) |-> -uy[i]] THEN "zero" ELSE "t"
 
 \* affine re-parametrisation of one column:  v -> a*v + b
 Affine(D, v, a, b) == [D EXCEPT !.rows = [i \in 1..N(D) |-> [D.rows[i] EXCEPT ![v] = a * @ + b]]]
@@ -118,7 +121,11 @@ LemmaSym(D, X, Y, Z) ==
     LET F == RForm(D, X, Y, Z)
         G == RForm(D, Y, X, Reverse(Z))
     IN F.sxy = G.sxy /\ F.sxx = G.syy /\ F.syy = G.sxx
-LemmaCauchy(D, X, Y, Z) == LET F == RForm(D, X, Y, Z) IN F.sxy * F.sxy <= F.sxx * F.syy     \* |r| <= 1
+LemmaCauchy(D, X, Y, Z) ==                                       \* |r| <= 1, with equality iff RKind = "zero"
+    LET F == RForm(D, X, Y, Z) IN
+    F.sxx <= 40000 /\ F.syy <= 40000 =>        \* (products inside 32 bits)
+        /\ F.sxy * F.sxy <= F.sxx * F.syy
+        /\ (F.sxy * F.sxy = F.sxx * F.syy <=> RKind(D, X, Y, Z) = "zero")
 \* the residual direction of every variable is unchanged by a positive affine map of X, of Y, or any affine map of a Z
 LemmaAffine(D, X, Y, Z, v, a, b) ==
     LET D2 == Affine(D, v, a, b) IN
